@@ -5,8 +5,13 @@ use crate::Check;
 use serde_json::{json, Value};
 
 pub mod c02;
+pub mod gens;
+pub mod misc;
+pub mod ops;
+pub mod trav;
+pub mod weighted;
 
-pub const ALL: &[&str] = &["C02"];
+pub const ALL: &[&str] = &["C02", "C03", "C04", "C05", "C06", "C07", "C08", "C09", "C10", "C11", "C12", "C14", "C15", "C16", "C18", "C19"];
 
 pub fn report(prop: &str, tier: &str, seed: u64, rule: &str, assumptions: &[&str], bounds: Value) -> Report {
     Report {
@@ -23,6 +28,21 @@ pub fn report(prop: &str, tier: &str, seed: u64, rule: &str, assumptions: &[&str
 pub fn build(prop: &str, tier: &str, seed: u64) -> Option<Check> {
     match prop {
         "C02" => Some(c02::build(tier, seed)),
+        "C03" => Some(weighted::c03(tier, seed)),
+        "C04" => Some(trav::c04(tier, seed)),
+        "C05" => Some(weighted::c05(tier, seed)),
+        "C06" => Some(trav::c06(tier, seed)),
+        "C07" => Some(weighted::c07(tier, seed)),
+        "C08" => Some(weighted::c08(tier, seed)),
+        "C09" => Some(trav::c09(tier, seed)),
+        "C10" => Some(trav::c10(tier, seed)),
+        "C11" => Some(ops::c11(tier, seed)),
+        "C12" => Some(ops::c12(tier, seed)),
+        "C14" => Some(gens::c14(tier, seed)),
+        "C15" => Some(gens::c15(tier, seed)),
+        "C16" => Some(gens::c16(tier, seed)),
+        "C18" => Some(misc::c18(tier, seed)),
+        "C19" => Some(misc::c19(tier, seed)),
         _ => None,
     }
 }
